@@ -319,7 +319,8 @@ def check_case(ctx, text, vals, whole=None, tags=()):
     try:
         inst = prog(**call_vals)
     except Exception as e:
-        if any(keyword.iskeyword(p) for p in written) and type(e).__name__ in ("TypeError", "SyntaxError"):
+        if (any(keyword.iskeyword(p) for p in written) and type(e).__name__ in ("TypeError", "SyntaxError")) or (
+                "self" in written and isinstance(e, TypeError) and "multiple values for argument 'self'" in str(e)):
             ctx.violation("python-keyword-parameter-name", "instantiation raised %s for a parameter named like a Python keyword" % common.exc_text(e), witness)
             return
         ctx.violation("call-raises:" + common.exc_key(e), "P(**values) raised %s" % common.exc_text(e), witness)
@@ -365,7 +366,7 @@ def check_case(ctx, text, vals, whole=None, tags=()):
     except ValueError:
         ctx.observe("missing value refused with ValueError")
     except Exception as e:
-        if keyword.iskeyword(drop) or any(keyword.iskeyword(p) for p in partial):
+        if keyword.iskeyword(drop) or any(keyword.iskeyword(p) or p == "self" for p in partial):
             ctx.observe("missing-value probe skipped (python keyword name)")
         else:
             ctx.violation("missing-value-wrong-exception:" + type(e).__name__, "instantiation without a value for %r raised %s, not ValueError" % (drop, common.exc_text(e)), witness)
